@@ -15,7 +15,7 @@ sys.path.insert(0, os.path.join(os.path.dirname(__file__), "..", "..", "tools"))
 import vlib
 
 HERE = os.path.dirname(os.path.abspath(__file__))
-BUGS = ["noInvalid", "srcNotNulled", "noDestroyOnAssign"]
+BUGS = ["noInvalid", "guardOnRequire", "srcNotNulled", "noDestroyOnAssign"]
 GROUPS = [("objT", "AnyObjectMC_objT.cfg"), ("objF", "AnyObjectMC_objF.cfg"), ("uniq", "AnyObjectMC_uniq.cfg"),
           ("refs", "AnyObjectMC_refs.cfg")]
 
@@ -129,6 +129,19 @@ def run(ctx):
 
     bugres = {}
 
+    def mcbugs():
+        for bug in BUGS:
+            mcbug(bug)
+
+    built = {}
+
+    def build():         # the driver is compiled while TLC runs
+        try:
+            built["exe"] = vlib.build(ctx, "erase_driver", [os.path.join(HERE, "driver.cpp")],
+                                      lib=["inplace_stop_token.cpp", "async_stack.cpp", "exception.cpp"], opt="-O0")
+        except Exception as ex:          # noqa
+            built["exe"] = ex
+
     def mcbug(bug):
         try:
             bugres[bug] = vlib.tlc(os.path.join(ctx.work, "tlc"), os.path.join(vlib.VERIF, "spec", "erase"), "AnyObjectMC", cfg="AnyObjectBug_%s.cfg" % bug,
@@ -137,7 +150,7 @@ def run(ctx):
             bugres[bug] = ex
 
     t0 = time.time()
-    ths = [threading.Thread(target=mc, args=g) for g in GROUPS] + [threading.Thread(target=mcbug, args=(b,)) for b in BUGS]
+    ths = [threading.Thread(target=mc, args=g) for g in GROUPS] + [threading.Thread(target=mcbugs), threading.Thread(target=build)]
     for t in ths:
         t.start()
     for t in ths:
@@ -151,7 +164,7 @@ def run(ctx):
     rep.note("TLC: %d family groups in %.0fs" % (len(GROUPS), time.time() - t0))
     # ---- 2. behaviours
     behaviours = []
-    cap = int(os.environ.get("VERIF_ERASE_CAP", "0") or 0) or (4000 if ctx.quick else 60000)
+    cap = int(os.environ.get("VERIF_ERASE_CAP", "0") or 0) or (3000 if ctx.quick else 60000)
     max_len = 12
     nedges = 0
     for name, _ in GROUPS:
@@ -194,7 +207,9 @@ def run(ctx):
                                                                          expect=dict(exc=s["exp"]["exc"], res=s["exp"]["res"], wrappers=[w["t"] for w in s["exp"]["ws"]]))
                                                                     for s in b["steps"]]))
     # ---- 3. real code
-    exe = vlib.build(ctx, "erase_driver", [os.path.join(HERE, "driver.cpp")], lib=["inplace_stop_token.cpp", "async_stack.cpp", "exception.cpp"])
+    exe = built["exe"]
+    if isinstance(exe, Exception):
+        raise exe
     nproc = max(1, min(4, vlib.NCPU))
     n = len(behaviours)
     slices = [(i * n // nproc, (i + 1) * n // nproc) for i in range(nproc)]
